@@ -234,6 +234,21 @@ def run_schedule(ctx, strategy, plan, inj, line_p, rng, tag, case, dfs=False, op
                 if we != "exception" and not all(commit):
                     ctx.count("mon.with_block_left_through_non_Exception")
             sc.spawn(writer_body(sc, z, wid, commit, second, None, repl=is_repl, with_exit=we), f"w{wid}")
+        # readers coming and going next to the writers (their registration and departure share the zone's lock and its
+        # pruning pass with the commits)
+        def reader_body(rid):
+            def body():
+                for k in range(2):
+                    r = z.reader()
+                    sc.pause("client:reading")
+                    zone_state(r)
+                    r.rollback()
+                    sc.pause("client:read-done")
+            return body
+
+        for rid in range((opts or {}).get("readers", 0)):
+            sc.spawn(reader_body(rid), f"r{rid}")
+            ctx.count("mon.reader_threads_next_to_writers")
         if inj is not None:
             inj.attach(sc, (lambda: rng.random() < line_p) if line_p > 0 else (lambda: False))
 
@@ -301,7 +316,8 @@ def run_schedule(ctx, strategy, plan, inj, line_p, rng, tag, case, dfs=False, op
 
 def gen_opts(rng, plan):
     return {"zone": rng.choice(("versioned", "versioned", "btree")), "repl": {w for w in range(len(plan)) if rng.random() < 0.2},
-            "with_exit": {w: rng.choice(("exception", "base", "generator-exit", "keyboard")) for w in range(len(plan)) if rng.random() < 0.3}}
+            "with_exit": {w: rng.choice(("exception", "base", "generator-exit", "keyboard")) for w in range(len(plan)) if rng.random() < 0.3},
+            "readers": rng.choice((0, 0, 1, 2))}
 
 
 def gen_plan(rng, n=None):
@@ -455,5 +471,5 @@ def replay(case, ctx):
     choices = case.get("choices") or case.get("prefix") or []
     rng = random.Random(0)
     o = case.get("opts")
-    opts = {"zone": o.get("zone"), "repl": set(o.get("repl", ())), "with_exit": {int(k): v for k, v in (o.get("with_exit") or {}).items()}} if o else None
+    opts = {"zone": o.get("zone"), "repl": set(o.get("repl", ())), "with_exit": {int(k): v for k, v in (o.get("with_exit") or {}).items()}, "readers": o.get("readers", 0)} if o else None
     run_schedule(ctx, S.PrefixStrategy(choices), plan, None, 0.0, rng, "replay", {"kind": "replay", "plan": case["plan"]}, opts=opts)
